@@ -56,6 +56,9 @@ theorem langAny_sub_allStrings : ∀ (l : List RE), WFList l → langAny l ≤ a
       · exact langAny_sub_allStrings xs h.2 h1
 end
 
+theorem WF_loop_iff (e : RE) (r : LoopRange) : (RE.loop e r).WF ↔ e.WF ∧ RangeOK r := by
+  rw [WF]; exact Iff.rfl
+
 theorem lang_wfs {e : RE} (h : e.WF) {w : List ℕ} (hw : w ∈ e.lang) : WFs w :=
   lang_sub_allStrings e h hw
 
@@ -307,6 +310,681 @@ theorem mkConcat_lang (a b : RE) (ha : a.WF) (hb : b.WF) :
 
 theorem mkConcat_wf (a b : RE) (ha : a.WF) (hb : b.WF) : (mkConcat a b).WF :=
   (mkConcat_spec a b ha hb).2
+
+/-! ### concat_list, flatten_concat -/
+
+/-- the product of the languages of a list of terms -/
+def concatLangs : List RE → Language ℕ
+  | [] => 1
+  | x :: xs => x.lang * concatLangs xs
+
+theorem concatLangs_eq_foldr (l : List RE) :
+    concatLangs l = (l.map lang).foldr (· * ·) 1 := by
+  induction l with
+  | nil => rfl
+  | cons x xs ih => simp only [concatLangs, List.map_cons, List.foldr_cons, ih]
+
+theorem concatLangs_append (l m : List RE) :
+    concatLangs (l ++ m) = concatLangs l * concatLangs m := by
+  induction l with
+  | nil => simp [concatLangs]
+  | cons x xs ih => simp only [List.cons_append, concatLangs, ih, mul_assoc]
+
+theorem WFList_append (l m : List RE) : WFList (l ++ m) ↔ WFList l ∧ WFList m := by
+  simp only [WFList_iff, List.mem_append]
+  constructor
+  · intro h; exact ⟨fun e he => h e (Or.inl he), fun e he => h e (Or.inr he)⟩
+  · rintro ⟨h1, h2⟩ e (he | he)
+    · exact h1 e he
+    · exact h2 e he
+
+/-- `flatten_concat` keeps the language: the product of the pieces is the language of the term -/
+theorem flattenConcat_lang (e : RE) : concatLangs (flattenConcat e) = e.lang := by
+  fun_induction flattenConcat e with
+  | case1 => simp [concatLangs, lang]
+  | case2 x y ihx ihy => rw [concatLangs_append, ihx, ihy, lang]
+  | case3 r _ _ => simp [concatLangs]
+
+theorem flattenConcat_wf (e : RE) (h : e.WF) : WFList (flattenConcat e) := by
+  fun_induction flattenConcat e with
+  | case1 => trivial
+  | case2 x y ihx ihy =>
+    rw [WF] at h
+    exact (WFList_append _ _).2 ⟨ihx h.1, ihy h.2⟩
+  | case3 r _ _ => exact ⟨h, trivial⟩
+
+theorem foldr_mkConcat_spec (l : List RE) (h : WFList l) :
+    (l.foldr mkConcat .epsilon).lang = concatLangs l ∧ (l.foldr mkConcat .epsilon).WF := by
+  induction l with
+  | nil => exact ⟨by simp [concatLangs, lang], trivial⟩
+  | cons x xs ih =>
+    rw [WFList] at h
+    obtain ⟨h1, h2⟩ := ih h.2
+    simp only [List.foldr_cons, concatLangs]
+    exact ⟨by rw [mkConcat_lang _ _ h.1 h2, h1], mkConcat_wf _ _ h.1 h2⟩
+
+theorem flatMap_flattenConcat_lang (a : List RE) :
+    concatLangs (a.flatMap flattenConcat) = concatLangs a := by
+  induction a with
+  | nil => rfl
+  | cons x xs ih =>
+    rw [List.flatMap_cons, concatLangs_append, flattenConcat_lang, ih, concatLangs]
+
+theorem flatMap_flattenConcat_wf (a : List RE) (h : WFList a) :
+    WFList (a.flatMap flattenConcat) := by
+  induction a with
+  | nil => trivial
+  | cons x xs ih =>
+    rw [WFList] at h
+    rw [List.flatMap_cons]
+    exact (WFList_append _ _).2 ⟨flattenConcat_wf x h.1, ih h.2⟩
+
+/-- `concat_list` denotes the concatenation of the list -/
+theorem concatList_lang (a : List RE) (h : WFList a) : (concatList a).lang = concatLangs a := by
+  rw [concatList, (foldr_mkConcat_spec _ (flatMap_flattenConcat_wf a h)).1,
+    flatMap_flattenConcat_lang]
+
+theorem concatList_wf (a : List RE) (h : WFList a) : (concatList a).WF :=
+  (foldr_mkConcat_spec _ (flatMap_flattenConcat_wf a h)).2
+
+/-! ### char, range, smt_range, str -/
+
+theorem char?_eq_none_iff (x : ℕ) : char? x = none ↔ MAX_CHAR < x := by
+  unfold char?; split <;> simp <;> omega
+
+theorem char?_spec (x : ℕ) (e : RE) (h : char? x = some e) :
+    e.lang = ({[x]} : Language ℕ) ∧ e.WF ∧ x ≤ MAX_CHAR := by
+  unfold char? at h
+  split at h
+  · rename_i hx
+    cases h
+    refine ⟨?_, ?_, hx⟩
+    · apply Language.ext; intro w
+      rw [lang]
+      change (∃ c, w = [c] ∧ x ≤ c ∧ c ≤ x) ↔ w = [x]
+      constructor
+      · rintro ⟨c, rfl, h1, h2⟩
+        have : c = x := by omega
+        rw [this]
+      · rintro rfl; exact ⟨x, rfl, Nat.le_refl _, Nat.le_refl _⟩
+    · rw [WF]; exact ⟨Nat.le_refl _, hx⟩
+  · cases h
+
+theorem char?_lang (x : ℕ) (e : RE) (h : char? x = some e) : e.lang = ({[x]} : Language ℕ) :=
+  (char?_spec x e h).1
+
+theorem char?_wf (x : ℕ) (e : RE) (h : char? x = some e) : e.WF := (char?_spec x e h).2.1
+
+theorem range?_eq_none_iff (a b : ℕ) : range? a b = none ↔ ¬ (a ≤ b ∧ b ≤ MAX_CHAR) := by
+  unfold range?; split <;> simp_all
+
+theorem range?_lang (a b : ℕ) (e : RE) (h : range? a b = some e) :
+    e.lang = {w | ∃ c, w = [c] ∧ a ≤ c ∧ c ≤ b} := by
+  unfold range? at h
+  split at h
+  · cases h; rw [lang]; rfl
+  · cases h
+
+theorem range?_wf (a b : ℕ) (e : RE) (h : range? a b = some e) : e.WF := by
+  unfold range? at h
+  split at h
+  · rename_i hc
+    cases h
+    rw [Bool.and_eq_true, decide_eq_true_eq, decide_eq_true_eq] at hc
+    rw [WF]; exact hc
+  · cases h
+
+/-- `re.range`: the empty language unless both arguments are single characters -/
+theorem smtRange_lang (s1 s2 : List ℕ) :
+    (smtRange s1 s2).lang = {w | ∃ c1 c2 c, s1 = [c1] ∧ s2 = [c2] ∧ w = [c] ∧ c1 ≤ c ∧ c ≤ c2} := by
+  apply Language.ext; intro w
+  change w ∈ (smtRange s1 s2).lang ↔
+    ∃ c1 c2 c, s1 = [c1] ∧ s2 = [c2] ∧ w = [c] ∧ c1 ≤ c ∧ c ≤ c2
+  unfold smtRange
+  split
+  · rename_i c1 c2
+    split
+    · rw [lang]
+      constructor
+      · rintro ⟨c, rfl, h1, h2⟩; exact ⟨c1, c2, c, rfl, rfl, rfl, h1, h2⟩
+      · rintro ⟨d1, d2, c, h1, h2, rfl, h3, h4⟩
+        cases h1; cases h2
+        exact ⟨c, rfl, h3, h4⟩
+    · rename_i hlt
+      rw [lang]
+      constructor
+      · intro hw; exact absurd hw (Language.notMem_zero w)
+      · rintro ⟨d1, d2, c, h1, h2, rfl, h3, h4⟩
+        cases h1; cases h2
+        omega
+  · rename_i hne
+    rw [lang]
+    constructor
+    · intro hw; exact absurd hw (Language.notMem_zero w)
+    · rintro ⟨d1, d2, c, rfl, rfl, _⟩
+      exact absurd rfl (hne d1 d2 rfl)
+
+theorem smtRange_wf (s1 s2 : List ℕ) (h2 : WFs s2) : (smtRange s1 s2).WF := by
+  unfold smtRange
+  split
+  · rename_i c1 c2
+    split
+    · rename_i hle
+      rw [WF]; exact ⟨hle, h2 c2 (by simp)⟩
+    · trivial
+  · trivial
+
+theorem str?_eq_none_iff (s : List ℕ) : str? s = none ↔ ¬ WFs s := by
+  induction s with
+  | nil => simp [str?, WFs_nil]
+  | cons c rest ih =>
+    rw [WFs_cons]
+    cases hr : str? rest with
+    | none =>
+      have : ¬ WFs rest := ih.1 hr
+      simp [str?, hr, this]
+    | some re =>
+      have hw : WFs rest := by
+        by_contra hc; rw [← ih, hr] at hc; cases hc
+      cases hch : char? c with
+      | none =>
+        have := (char?_eq_none_iff c).1 hch
+        simp [str?, hr, hch]; omega
+      | some ch =>
+        have := (char?_spec c ch hch).2.2
+        simp [str?, hr, hch, hw, this]
+
+/-- `str s` denotes `{s}` -/
+theorem str?_spec (s : List ℕ) (e : RE) (h : str? s = some e) :
+    e.lang = ({s} : Language ℕ) ∧ e.WF := by
+  induction s generalizing e with
+  | nil =>
+    simp only [str?, Option.some.injEq] at h
+    subst h
+    refine ⟨?_, trivial⟩
+    rw [lang]; rfl
+  | cons c rest ih =>
+    cases hr : str? rest with
+    | none => simp [str?, hr] at h
+    | some re =>
+      cases hch : char? c with
+      | none => simp [str?, hr, hch] at h
+      | some ch =>
+        simp only [str?, hr, hch, Option.bind_eq_bind, Option.bind_some, Option.pure_def,
+          Option.some.injEq] at h
+        subst h
+        obtain ⟨h1, h2⟩ := ih re hr
+        obtain ⟨h3, h4, _⟩ := char?_spec c ch hch
+        refine ⟨?_, mkConcat_wf _ _ h4 h2⟩
+        rw [mkConcat_lang _ _ h4 h2, h1, h3]
+        apply Language.ext; intro w
+        rw [Language.mem_mul]
+        constructor
+        · rintro ⟨u, hu, v, hv, rfl⟩
+          have hu' : u = [c] := hu
+          have hv' : v = rest := hv
+          rw [hu', hv']; rfl
+        · intro hw
+          have hw' : w = c :: rest := hw
+          exact ⟨[c], rfl, rest, rfl, hw'.symm⟩
+
+theorem str?_lang (s : List ℕ) (e : RE) (h : str? s = some e) : e.lang = ({s} : Language ℕ) :=
+  (str?_spec s e h).1
+
+theorem str?_wf (s : List ℕ) (e : RE) (h : str? s = some e) : e.WF := (str?_spec s e h).2
+
+/-! ### 6. mk_loop and the derived constructors -/
+
+theorem mkLoop_spec (e : RE) (r : LoopRange) (he : e.WF) (hr : RangeOK r) :
+    (mkLoop e r).lang = loopLang e.lang r ∧ (mkLoop e r).WF := by
+  unfold mkLoop
+  split
+  · -- [0,0]
+    rename_i hz
+    have hz' : r.start = 0 ∧ r.stop = some 0 := by simpa [LoopRange.isZero] using hz
+    obtain ⟨a, st⟩ := r
+    simp only at hz'
+    obtain ⟨rfl, rfl⟩ := hz'
+    refine ⟨?_, trivial⟩
+    have := loopLang_point e.lang 0
+    rw [pow_zero] at this
+    rw [lang]; exact this.symm
+  · split
+    · -- [1,1]
+      rename_i _ ho
+      have ho' : r.start = 1 ∧ r.stop = some 1 := by simpa [LoopRange.isOne] using ho
+      obtain ⟨a, st⟩ := r
+      simp only at ho'
+      obtain ⟨rfl, rfl⟩ := ho'
+      exact ⟨(loopLang_one e.lang).symm, he⟩
+    · split
+      · -- empty body
+        rw [lang, loopLang_zero r hr]
+        split
+        · rename_i h0
+          rw [beq_iff_eq] at h0
+          rw [if_pos h0]
+          exact ⟨by rw [lang], trivial⟩
+        · rename_i h0
+          rw [beq_iff_eq] at h0
+          rw [if_neg h0]
+          exact ⟨by rw [lang], trivial⟩
+      · -- epsilon body
+        rw [lang, loopLang_epsilon r hr]
+        exact ⟨rfl, trivial⟩
+      · -- nested loop
+        rename_i x xr
+        have hx := he
+        rw [WF] at hx
+        split
+        · rename_i hex
+          refine ⟨?_, ?_⟩
+          · rw [lang, lang, loopLang_loopLang _ _ _ hx.2 hr hex]
+          · rw [WF]; exact ⟨hx.1, rangeOK_mulN _ _ hx.2 hr⟩
+        · refine ⟨by rw [lang], ?_⟩
+          rw [WF]; exact ⟨he, hr⟩
+      · refine ⟨by rw [lang], ?_⟩
+        rw [WF]; exact ⟨he, hr⟩
+
+/-- `mk_loop` denotes bounded/unbounded iteration -/
+theorem mkLoop_lang (e : RE) (r : LoopRange) (he : e.WF) (hr : RangeOK r) :
+    (mkLoop e r).lang = loopLang e.lang r := (mkLoop_spec e r he hr).1
+
+theorem mkLoop_wf (e : RE) (r : LoopRange) (he : e.WF) (hr : RangeOK r) : (mkLoop e r).WF :=
+  (mkLoop_spec e r he hr).2
+
+theorem loopLang_star (L : Language ℕ) : loopLang L LoopRange.star = KStar.kstar L := by
+  apply Language.ext; intro w
+  rw [Language.kstar_eq_iSup_pow, Language.mem_iSup, mem_loopLang]
+  simp only [LoopRange.star, LoopRange.infinite, mem_inf, Nat.zero_le, true_and]
+
+theorem loopLang_opt (L : Language ℕ) : loopLang L LoopRange.opt = 1 + L := by
+  apply Language.ext; intro w
+  rw [mem_loopLang, Language.mem_add]
+  simp only [LoopRange.opt, LoopRange.finite, mem_fin]
+  constructor
+  · rintro ⟨k, ⟨_, hk⟩, hw⟩
+    rcases Nat.eq_zero_or_pos k with rfl | h
+    · left; simpa using hw
+    · have : k = 1 := by omega
+      subst this; right; simpa using hw
+  · rintro (hw | hw)
+    · exact ⟨0, ⟨Nat.le_refl _, Nat.zero_le _⟩, by simpa using hw⟩
+    · exact ⟨1, ⟨Nat.zero_le _, Nat.le_refl _⟩, by simpa using hw⟩
+
+theorem loopLang_plus (L : Language ℕ) : loopLang L LoopRange.plus = L * KStar.kstar L := by
+  rw [← loopLang_star, mul_loopLang L LoopRange.star (rangeOK_inf 0)]
+  rfl
+
+theorem star_lang (e : RE) (he : e.WF) : (star e).lang = KStar.kstar e.lang := by
+  rw [star, mkLoop_lang e LoopRange.star he (rangeOK_inf 0), loopLang_star]
+
+theorem star_wf (e : RE) (he : e.WF) : (star e).WF := mkLoop_wf e _ he (rangeOK_inf 0)
+
+theorem plus_lang (e : RE) (he : e.WF) : (plus e).lang = e.lang * KStar.kstar e.lang := by
+  rw [plus, mkLoop_lang e LoopRange.plus he (rangeOK_inf 1), loopLang_plus]
+
+theorem plus_wf (e : RE) (he : e.WF) : (plus e).WF := mkLoop_wf e _ he (rangeOK_inf 1)
+
+theorem opt_lang (e : RE) (he : e.WF) : (opt e).lang = 1 + e.lang := by
+  rw [opt, mkLoop_lang e LoopRange.opt he ((rangeOK_fin 0 1).2 (Nat.zero_le _)), loopLang_opt]
+
+theorem opt_wf (e : RE) (he : e.WF) : (opt e).WF :=
+  mkLoop_wf e _ he ((rangeOK_fin 0 1).2 (Nat.zero_le _))
+
+theorem exp_lang (e : RE) (k : ℕ) (he : e.WF) : (exp e k).lang = e.lang ^ k := by
+  rw [exp, mkLoop_lang e _ he (rangeOK_point k), loopLang_point]
+
+theorem exp_wf (e : RE) (k : ℕ) (he : e.WF) : (exp e k).WF := mkLoop_wf e _ he (rangeOK_point k)
+
+/-- `re.loop i j`: `⋃ i ≤ k ≤ j, L^k`, empty when `i > j` -/
+theorem smtLoop_lang (e : RE) (i j : ℕ) (he : e.WF) :
+    (smtLoop e i j).lang = {w | ∃ k, i ≤ k ∧ k ≤ j ∧ w ∈ e.lang ^ k} := by
+  apply Language.ext; intro w
+  change w ∈ (smtLoop e i j).lang ↔ ∃ k, i ≤ k ∧ k ≤ j ∧ w ∈ e.lang ^ k
+  unfold smtLoop
+  split
+  · rename_i hij
+    rw [mkLoop_lang e (LoopRange.finite i j) he ((rangeOK_fin i j).2 hij), mem_loopLang]
+    simp only [LoopRange.finite, mem_fin, and_assoc]
+  · rename_i hij
+    rw [lang]
+    constructor
+    · intro hw; exact absurd hw (Language.notMem_zero w)
+    · rintro ⟨k, h1, h2, _⟩; omega
+
+theorem smtLoop_wf (e : RE) (i j : ℕ) (he : e.WF) : (smtLoop e i j).WF := by
+  unfold smtLoop
+  split
+  · rename_i hij; exact mkLoop_wf e _ he ((rangeOK_fin i j).2 hij)
+  · trivial
+
+/-! ### 4. flatten_union, flatten_inter -/
+
+theorem langAny_append (l m : List RE) : langAny (l ++ m) = langAny l + langAny m := by
+  induction l with
+  | nil => simp [langAny]
+  | cons x xs ih => simp only [List.cons_append, langAny, ih, add_assoc]
+
+theorem langAll_append (l m : List RE) : langAll (l ++ m) = langAll l ⊓ langAll m := by
+  induction l with
+  | nil => simp [langAll]
+  | cons x xs ih => simp only [List.cons_append, langAll, ih, inf_assoc]
+
+theorem langAny_singleton (e : RE) : langAny [e] = e.lang := by
+  simp [langAny]
+
+theorem langAll_singleton (e : RE) : langAll [e] = e.lang := by
+  simp [langAll]
+
+theorem flattenUnion_plain (e : RE) (h : ∀ l, e ≠ .union l) : flattenUnion e = [e] := by
+  unfold flattenUnion
+  split
+  · exact absurd rfl (h _)
+  · rfl
+
+theorem flattenInter_plain (e : RE) (h : ∀ l, e ≠ .inter l) : flattenInter e = [e] := by
+  unfold flattenInter
+  split
+  · exact absurd rfl (h _)
+  · rfl
+
+mutual
+/-- `flatten_union` keeps the language -/
+theorem flattenUnion_lang : ∀ (e : RE), langAny (flattenUnion e) = e.lang
+  | .empty => by simp [flattenUnion, langAny]
+  | .epsilon => by simp [flattenUnion, langAny]
+  | .range _ => by simp [flattenUnion, langAny]
+  | .concat _ _ => by simp [flattenUnion, langAny]
+  | .loop _ _ => by simp [flattenUnion, langAny]
+  | .compl _ => by simp [flattenUnion, langAny]
+  | .inter _ => by simp [flattenUnion, langAny]
+  | .union l => by rw [flattenUnion, flattenUnionList_lang l, lang]
+theorem flattenUnionList_lang : ∀ (l : List RE), langAny (flattenUnionList l) = langAny l
+  | [] => by rw [flattenUnionList]
+  | x :: xs => by
+      rw [flattenUnionList, langAny_append, flattenUnion_lang x, flattenUnionList_lang xs, langAny]
+end
+
+mutual
+theorem flattenUnion_wf : ∀ (e : RE), e.WF → WFList (flattenUnion e)
+  | .empty, h => by simpa [flattenUnion, WFList] using h
+  | .epsilon, h => by simpa [flattenUnion, WFList] using h
+  | .range _, h => by simpa [flattenUnion, WFList] using h
+  | .concat _ _, h => by simpa [flattenUnion, WFList] using h
+  | .loop _ _, h => by simpa [flattenUnion, WFList] using h
+  | .compl _, h => by simpa [flattenUnion, WFList] using h
+  | .inter _, h => by simpa [flattenUnion, WFList] using h
+  | .union l, h => by rw [WF] at h; rw [flattenUnion]; exact flattenUnionList_wf l h
+theorem flattenUnionList_wf : ∀ (l : List RE), WFList l → WFList (flattenUnionList l)
+  | [], _ => by rw [flattenUnionList]; trivial
+  | x :: xs, h => by
+      rw [WFList] at h
+      rw [flattenUnionList]
+      exact (WFList_append _ _).2 ⟨flattenUnion_wf x h.1, flattenUnionList_wf xs h.2⟩
+end
+
+mutual
+/-- on well-formed strings, the intersection of the pieces of `flatten_inter` is the language -/
+theorem flattenInter_mem : ∀ (e : RE) (w : List ℕ), WFs w →
+    (w ∈ langAll (flattenInter e) ↔ w ∈ e.lang)
+  | .empty, _, _ => by simp [flattenInter, langAll]
+  | .epsilon, _, _ => by simp [flattenInter, langAll]
+  | .range _, _, _ => by simp [flattenInter, langAll]
+  | .concat _ _, _, _ => by simp [flattenInter, langAll]
+  | .loop _ _, _, _ => by simp [flattenInter, langAll]
+  | .compl _, _, _ => by simp [flattenInter, langAll]
+  | .union _, _, _ => by simp [flattenInter, langAll]
+  | .inter l, w, hw => by
+      rw [flattenInter, flattenInterList_mem l w hw, lang]
+      exact ⟨fun h => ⟨hw, h⟩, fun h => h.2⟩
+theorem flattenInterList_mem : ∀ (l : List RE) (w : List ℕ), WFs w →
+    (w ∈ langAll (flattenInterList l) ↔ w ∈ langAll l)
+  | [], _, _ => by rw [flattenInterList]
+  | x :: xs, w, hw => by
+      rw [flattenInterList, langAll_append, langAll, Language.mem_inf, Language.mem_inf,
+        flattenInter_mem x w hw, flattenInterList_mem xs w hw]
+end
+
+/-- `flatten_inter` keeps the language (relative to the well-formed strings) -/
+theorem flattenInter_lang' (e : RE) :
+    {w | WFs w ∧ w ∈ langAll (flattenInter e)} = e.lang ⊓ allStrings := by
+  apply Language.ext; intro w
+  rw [Language.mem_inf]
+  change (WFs w ∧ w ∈ langAll (flattenInter e)) ↔ (w ∈ e.lang ∧ WFs w)
+  constructor
+  · rintro ⟨h1, h2⟩; exact ⟨(flattenInter_mem e w h1).1 h2, h1⟩
+  · rintro ⟨h1, h2⟩; exact ⟨h2, (flattenInter_mem e w h2).2 h1⟩
+
+theorem flattenInter_lang (e : RE) (h : e.WF) :
+    {w | WFs w ∧ w ∈ langAll (flattenInter e)} = e.lang := by
+  rw [flattenInter_lang']
+  exact inf_eq_left.2 (lang_sub_allStrings e h)
+
+mutual
+theorem flattenInter_wf : ∀ (e : RE), e.WF → WFList (flattenInter e)
+  | .empty, h => by simpa [flattenInter, WFList] using h
+  | .epsilon, h => by simpa [flattenInter, WFList] using h
+  | .range _, h => by simpa [flattenInter, WFList] using h
+  | .concat _ _, h => by simpa [flattenInter, WFList] using h
+  | .loop _ _, h => by simpa [flattenInter, WFList] using h
+  | .compl _, h => by simpa [flattenInter, WFList] using h
+  | .union _, h => by simpa [flattenInter, WFList] using h
+  | .inter l, h => by rw [WF] at h; rw [flattenInter]; exact flattenInterList_wf l h
+theorem flattenInterList_wf : ∀ (l : List RE), WFList l → WFList (flattenInterList l)
+  | [], _ => by rw [flattenInterList]; trivial
+  | x :: xs, h => by
+      rw [WFList] at h
+      rw [flattenInterList]
+      exact (WFList_append _ _).2 ⟨flattenInter_wf x h.1, flattenInterList_wf xs h.2⟩
+end
+
+/-! ### 7. tree-level complement discipline (C07) -/
+
+mutual
+/-- no `compl x` node with `x` one of `∅`, `ε`, `Σ*`, `Σ⁺` or itself a complement: the shape of
+    every term a manager can hold (`Complement` nodes are created only as the odd partner of a
+    fresh even node, and the four built-ins are paired with each other) -/
+def ComplCanon : RE → Prop
+  | .empty => True
+  | .epsilon => True
+  | .range _ => True
+  | .concat a b => ComplCanon a ∧ ComplCanon b
+  | .loop e _ => ComplCanon e
+  | .compl x => ComplCanon x ∧ x ≠ .empty ∧ x ≠ .epsilon ∧ x ≠ sigmaStar ∧ x ≠ sigmaPlus ∧
+      ∀ y, x ≠ .compl y
+  | .union l => ComplCanonList l
+  | .inter l => ComplCanonList l
+def ComplCanonList : List RE → Prop
+  | [] => True
+  | x :: xs => ComplCanon x ∧ ComplCanonList xs
+end
+
+theorem ComplCanonList_iff (l : List RE) : ComplCanonList l ↔ ∀ e ∈ l, ComplCanon e := by
+  induction l with
+  | nil => simp [ComplCanonList]
+  | cons x xs ih => simp [ComplCanonList, ih]
+
+theorem sigmaStar_canon : ComplCanon sigmaStar := by
+  rw [sigmaStar, ComplCanon, sigma, ComplCanon]; trivial
+
+theorem sigmaPlus_canon : ComplCanon sigmaPlus := by
+  rw [sigmaPlus, ComplCanon, sigma, ComplCanon]; trivial
+
+/-- `complement` on a term that is neither `∅`, `ε` nor a complement node -/
+theorem complement_plain (e : RE) (h1 : e ≠ .empty) (h2 : e ≠ .epsilon) (h3 : ∀ y, e ≠ .compl y) :
+    e.complement =
+      if e = sigmaStar then .empty else if e = sigmaPlus then .epsilon else .compl e := by
+  unfold complement
+  split
+  · exact absurd rfl h1
+  · exact absurd rfl h2
+  · exact absurd rfl (h3 _)
+  · rfl
+
+theorem complement_sigmaStar : sigmaStar.complement = .empty := by
+  rw [complement_plain sigmaStar (by simp [sigmaStar]) (by simp [sigmaStar]) (by simp [sigmaStar]),
+    if_pos rfl]
+
+theorem sigmaPlus_ne_sigmaStar : sigmaPlus ≠ sigmaStar := by decide
+
+theorem complement_sigmaPlus : sigmaPlus.complement = .epsilon := by
+  rw [complement_plain sigmaPlus (by simp [sigmaPlus]) (by simp [sigmaPlus]) (by simp [sigmaPlus]),
+    if_neg sigmaPlus_ne_sigmaStar, if_pos rfl]
+
+/-- `complement` is an involution on canonical terms -/
+theorem complement_involutive (e : RE) (h : ComplCanon e) : e.complement.complement = e := by
+  by_cases h1 : e = .empty
+  · subst h1; exact complement_sigmaStar
+  by_cases h2 : e = .epsilon
+  · subst h2; exact complement_sigmaPlus
+  by_cases h3 : ∃ y, e = .compl y
+  · obtain ⟨x, rfl⟩ := h3
+    rw [ComplCanon] at h
+    obtain ⟨_, k1, k2, k3, k4, k5⟩ := h
+    show x.complement = .compl x
+    rw [complement_plain x k1 k2 k5, if_neg k3, if_neg k4]
+  · have h3' : ∀ y, e ≠ .compl y := fun y hy => h3 ⟨y, hy⟩
+    rw [complement_plain e h1 h2 h3']
+    split
+    · rename_i heq; rw [heq]; rfl
+    · split
+      · rename_i heq; rw [heq]; rfl
+      · rfl
+
+/-- `complement` keeps terms canonical -/
+theorem complement_canon (e : RE) (h : ComplCanon e) : ComplCanon e.complement := by
+  by_cases h1 : e = .empty
+  · subst h1; exact sigmaStar_canon
+  by_cases h2 : e = .epsilon
+  · subst h2; exact sigmaPlus_canon
+  by_cases h3 : ∃ y, e = .compl y
+  · obtain ⟨x, rfl⟩ := h3
+    rw [ComplCanon] at h
+    exact h.1
+  · have h3' : ∀ y, e ≠ .compl y := fun y hy => h3 ⟨y, hy⟩
+    rw [complement_plain e h1 h2 h3']
+    split
+    · trivial
+    · split
+      · trivial
+      · rename_i k3 k4
+        rw [ComplCanon]
+        exact ⟨h, h1, h2, k3, k4, h3'⟩
+
+theorem concatPre_canon (a b r : RE) (ha : ComplCanon a) (hb : ComplCanon b)
+    (h : concatPre a b = some r) : ComplCanon r := by
+  unfold concatPre at h
+  split at h
+  · cases h; trivial
+  · cases h; trivial
+  · cases h; exact hb
+  · cases h; exact ha
+  · split at h
+    · rename_i r' heq
+      cases h
+      split at heq
+      · split at heq
+        · cases heq; rw [ComplCanon]; exact ha
+        · cases heq
+      · cases heq
+    · split at h
+      · rename_i r' heq
+        cases h
+        split at heq
+        · split at heq
+          · cases heq; rw [ComplCanon]; exact hb
+          · cases heq
+        · cases heq
+      · split at h
+        · rename_i r' heq
+          cases h
+          split at heq
+          · split at heq
+            · cases heq
+              rw [ComplCanon] at ha
+              rw [ComplCanon]; exact ha
+            · cases heq
+          · cases heq
+        · split at h
+          · cases h; rw [ComplCanon]; exact ha
+          · cases h
+
+theorem concatBase_canon (a b : RE) (ha : ComplCanon a) (hb : ComplCanon b) :
+    ComplCanon (concatBase a b) := by
+  unfold concatBase
+  split
+  · exact hb
+  · rw [ComplCanon]; exact ⟨ha, hb⟩
+
+/-- `concat` never creates a complement node -/
+theorem mkConcat_canon (a b : RE) (ha : ComplCanon a) (hb : ComplCanon b) :
+    ComplCanon (mkConcat a b) := by
+  fun_induction mkConcat a b with
+  | case1 x y e2 r h => exact concatPre_canon _ _ _ ha hb h
+  | case2 x y e2 h ih1 ih2 =>
+    have hxy := ha
+    rw [ComplCanon] at hxy
+    exact ih2 hxy.1 (ih1 hxy.2 hb)
+  | case3 e1 e2 _ r h => exact concatPre_canon _ _ _ ha hb h
+  | case4 e1 e2 _ h => exact concatBase_canon _ _ ha hb
+
+/-- `mk_loop` never creates a complement node -/
+theorem mkLoop_canon (e : RE) (r : LoopRange) (he : ComplCanon e) : ComplCanon (mkLoop e r) := by
+  unfold mkLoop
+  split
+  · trivial
+  · split
+    · exact he
+    · split
+      · split <;> trivial
+      · trivial
+      · split
+        · rw [ComplCanon] at he; rw [ComplCanon]; exact he
+        · rw [ComplCanon]; exact he
+      · rw [ComplCanon]; exact he
+
+theorem concatList_canon (a : List RE) (h : ComplCanonList a) : ComplCanon (concatList a) := by
+  have hflat : ∀ e, ComplCanon e → ComplCanonList (flattenConcat e) := by
+    intro e he
+    fun_induction flattenConcat e with
+    | case1 => trivial
+    | case2 x y ihx ihy =>
+      rw [ComplCanon] at he
+      rw [ComplCanonList_iff]
+      intro z hz
+      rcases List.mem_append.1 hz with hz | hz
+      · exact (ComplCanonList_iff _).1 (ihx he.1) z hz
+      · exact (ComplCanonList_iff _).1 (ihy he.2) z hz
+    | case3 r _ _ => exact ⟨he, trivial⟩
+  have hfold : ∀ l : List RE, (∀ e ∈ l, ComplCanon e) → ComplCanon (l.foldr mkConcat .epsilon) := by
+    intro l hl
+    induction l with
+    | nil => trivial
+    | cons x xs ih =>
+      rw [List.foldr_cons]
+      exact mkConcat_canon _ _ (hl x (by simp)) (ih (fun e he => hl e (by simp [he])))
+  rw [concatList]
+  apply hfold
+  intro e he
+  obtain ⟨x, hx, hex⟩ := List.mem_flatMap.1 he
+  exact (ComplCanonList_iff _).1 (hflat x ((ComplCanonList_iff _).1 h x hx)) e hex
+
+/-! ### sanity: the hypotheses are satisfiable and the rewrites fire -/
+
+example : mkLoop (.loop sigma ⟨2, some 3⟩) ⟨2, some 4⟩ = .loop sigma ⟨4, some 12⟩ := by decide
+example : mkLoop (.loop sigma ⟨3, some 3⟩) ⟨0, some 1⟩ = .loop (.loop sigma ⟨3, some 3⟩) ⟨0, some 1⟩ := by
+  decide
+example : mkLoop .empty LoopRange.star = .epsilon := by decide
+example : mkConcat sigma sigmaStar = sigmaPlus := by decide
+example : mkConcat (.concat sigma sigmaStar) sigma = .loop sigma ⟨2, none⟩ := by decide
+example : (RE.loop (.loop sigma ⟨2, some 3⟩) ⟨2, some 4⟩).WF :=
+  (WF_loop_iff _ _).2 ⟨(WF_loop_iff _ _).2 ⟨sigma_wf, (rangeOK_fin 2 3).2 (by decide)⟩,
+    (rangeOK_fin 2 4).2 (by decide)⟩
+example : ComplCanon (.compl (.concat sigma sigma)) := by
+  rw [ComplCanon]
+  refine ⟨by rw [ComplCanon]; exact ⟨by rw [sigma, ComplCanon]; trivial, by rw [sigma, ComplCanon]; trivial⟩,
+    by decide, by decide, by decide, by decide, fun y h => by cases h⟩
 
 end RE
 end Smt
